@@ -174,12 +174,16 @@ Fixpoint close_idx chs : option nat :=
       end
   end.
 
+Lemma close_idx_cons c d rest :
+  close_idx (c :: d :: rest) = if ch_closed d then option_map S (close_idx (d :: rest)) else Some 0.
+Proof. reflexivity. Qed.
+
 Lemma close_idx_none chs : head_closed chs = true -> close_idx chs = None -> all_closed chs.
 Proof.
   induction chs as [|c rest IH]; intros Hh Hn; [constructor|].
   cbn [head_closed] in Hh. constructor; [exact Hh|].
   destruct rest as [|d rest']; [constructor|].
-  cbn [close_idx] in Hn. destruct (ch_closed d) eqn:Hd; [|discriminate].
+  rewrite close_idx_cons in Hn. destruct (ch_closed d) eqn:Hd; [|discriminate].
   apply IH; [exact Hd|]. destruct (close_idx (d :: rest')); [discriminate|reflexivity].
 Qed.
 
@@ -193,12 +197,16 @@ Proof.
   revert i. induction chs as [|c rest IH]; intros i Hwf Hp Hh; cbn [close_idx]; [discriminate|].
   destruct rest as [|d rest']; [discriminate|].
   inversion Hwf as [|? ? Hwc Hwf1]; subst.
-  destruct (pend_all_nil_cons Hp) as [Hpc Hpr]. cbn [head_closed] in Hh.
+  destruct (pend_all_nil_cons _ _ Hp) as [Hpc Hpr]. cbn [head_closed] in Hh.
   destruct (ch_closed d) eqn:Hd.
   - destruct (close_idx (d :: rest')) as [j|] eqn:Ej; [|discriminate]. cbn [option_map].
     intros H; inversion H; subst i.
     change (copy_at (S j) (c :: d :: rest') 1 1 false) with (c :: copy_at j (d :: rest') 1 1 false).
-    cbn [count_open]. specialize (IH j Hwf1 Hpr Hd eq_refl). lia.
+    specialize (IH j Hwf1 Hpr Hd eq_refl).
+    change (count_open (c :: copy_at j (d :: rest') 1 1 false))
+      with ((if ch_closed c then 0 else 1) + count_open (copy_at j (d :: rest') 1 1 false)).
+    change (count_open (c :: d :: rest')) with ((if ch_closed c then 0 else 1) + count_open (d :: rest')).
+    lia.
   - intros H; inversion H; subst i. cbn [copy_at]. unfold copy_step. rewrite Hd.
     destruct (read (ch_conn c) 1 1 false) as [c' r] eqn:E.
     assert (Hwc' : wfc (ch_conn c) true) by (unfold wfch in Hwc; rewrite Hh in Hwc; exact Hwc).
@@ -223,9 +231,9 @@ Proof.
       set (o := PCopy i 1 1 false : pop A).
       destruct (copy_at_spec i 1 1 false (inv_wf Hi) (inv_chain Hi)) as (_ & _ & Cp & _ & Chd & _ & _).
       destruct (IH (pstep s o) (pstep_inv o Hi)) as (ops & H1 & H2 & H3 & H4).
-      * cbn [pstep p_chs]. lia.
-      * cbn [pstep p_chs]. rewrite Cp. exact Hp.
-      * cbn [pstep p_chs]. rewrite Chd. exact Hh.
+      * unfold o. cbn [pstep p_chs]. lia.
+      * unfold o. cbn [pstep p_chs]. rewrite Cp. exact Hp.
+      * unfold o. cbn [pstep p_chs]. rewrite Chd. exact Hh.
       * exists (o :: ops). cbn [prun fold_left].
         change (fold_left (@pstep A) ops (pstep s o)) with (prun (pstep s o) ops).
         repeat split; auto. constructor; auto. cbn. lia.
@@ -238,7 +246,7 @@ Lemma read_last_closed chs :
 Proof.
   induction chs as [|c rest IH]; intros Hne Hwf Hall Hp; [congruence|].
   inversion Hwf as [|? ? Hwc Hwf1]; subst. inversion Hall as [|? ? Hcc Hall1]; subst.
-  destruct (pend_all_nil_cons Hp) as [Hpc Hpr].
+  destruct (pend_all_nil_cons _ _ Hp) as [Hpc Hpr].
   destruct rest as [|d rest'].
   - cbn [read_last]. destruct (read (ch_conn c) 1 1 false) as [c' r] eqn:E. cbn [snd].
     assert (Hwc' : wfc (ch_conn c) true) by (unfold wfch in Hwc; rewrite Hcc in Hwc; exact Hwc).
